@@ -371,7 +371,6 @@ class LogicalType(type):  # noqa
                 except Exception as e:
                     context.handle_error(e)
                     break
-            return value
 
         elif cls.combinator == "|":
             # Union type
